@@ -24,6 +24,17 @@
 (* type and the real ABIs of the precompiles, dumped by the harness; a     *)
 (* kind that is not in ClassTable fails the ASSUME (incomplete run).       *)
 (*                                                                         *)
+(* Input groups: "msg" registered fx-core protobuf messages (wire bytes ->  *)
+(* real decoder -> ValidateBasic -> check-tx), "tx" the parts of the       *)
+(* transaction envelope the ante handler reads (TxBody, AuthInfo, TxRaw),  *)
+(* "abi" precompile call data (real EVM transaction), "str" the target and *)
+(* address parsers.                                                        *)
+(*                                                                         *)
+(* Outcome "panic: ..." on real behaviour: a panic escaping an fx-core     *)
+(* function, or one the application recovered whose raise site is fx-core  *)
+(* code.  A panic raised inside a dependency and turned into an error by   *)
+(* fx-core's own ante-handler recovery is a rejection.                     *)
+(*                                                                         *)
 (* Scope: structured, specification-generated inputs; not byte-level       *)
 (* fuzzing.                                                                *)
 (***************************************************************************)
@@ -59,7 +70,7 @@ ClassTable == [
   coin      |-> <<"valid", "absent", "nil_amount", "negative", "zero", "bad_denom", "empty_denom", "u256max">>,
   coins     |-> <<"valid", "empty", "nil_amount", "negative", "zero", "bad_denom", "duplicate", "unsorted">>,
   any       |-> <<"valid", "absent", "wrong_type", "nested_wrong", "unknown_url", "empty_value", "garbage_value">>,
-  anylist   |-> <<"valid", "empty", "wrong_type", "garbage_value", "dup">>,
+  anylist   |-> <<"valid", "empty", "wrong_type", "garbage_value", "dup", "eth_ext">>,
   strlist   |-> <<"valid", "empty", "dup", "empty_elem", "garbage", "two", "many">>,
   uintlist  |-> <<"valid", "empty", "zero", "max", "dup">>,
   sintlist  |-> <<"valid", "empty", "zero", "min", "max", "dup">>,
